@@ -16,6 +16,7 @@
     contract ("not safe for concurrent use"), not a deviation.
 -/
 import RoProofs.Kernel.Producer
+import RoProofs.Kernel.WellLockedSound
 import RoProps.KernelTie
 namespace Ro.C02
 open Ro.Kernel
@@ -67,6 +68,33 @@ theorem kernel_subscription_state_under_lock (mode : Mode) (destNil : Bool)
     rcases hh with h | h | h | h <;> simpa [lfSubHeld, h] using a
   exact (hi.lock.own .subMu t th ht rfl).mp this
 
+/-! ### the same for arbitrary programs that keep the lock discipline -/
+
+/-- soundness of the decidable lock-discipline checker `wellLocked` (RoModel/Kernel/WellLocked.lean)
+    for ARBITRARY program tables: accepted ⇒ in safe / eventually-safe mode at most one thread is
+    inside a callback, for every number of threads, scripts and schedule -/
+theorem wellLocked_programs_never_overlap (table : List (Meth × Prog)) (hw : wellLocked table = true)
+    (mode : Mode) (hm : mode ≠ .unsafeMode) (destNil : Bool) (panicky : List FinId)
+    (scripts : List (List ApiCall)) (sched : List Tid) :
+    OneInside (run (lookup table) (init mode destNil panicky scripts) sched) :=
+  fun t u th thu ht hu h1 h2 => wellLocked_sound table hw mode hm destNil panicky scripts sched t u th thu ht hu h1 h2
+
+/-- the programs regenerated from the Go sources on this run keep the discipline (evaluated by the
+    Lean kernel on `RoGen.Kernel.table` itself; survives any rewrite of the kernel that keeps it) -/
+theorem regenerated_programs_wellLocked : wellLocked RoGen.Kernel.table = true := by decide
+
+/-- hence C02(a) for the regenerated programs, independently of the program-equality tie -/
+theorem regenerated_callbacks_never_overlap (mode : Mode) (hm : mode ≠ .unsafeMode) (destNil : Bool)
+    (panicky : List FinId) (scripts : List (List ApiCall)) (sched : List Tid) :
+    OneInside (run (lookup RoGen.Kernel.table) (init mode destNil panicky scripts) sched) :=
+  wellLocked_programs_never_overlap _ regenerated_programs_wellLocked mode hm destNil panicky scripts sched
+
+-- the checker is not vacuous: it rejects a Next that calls the destination after unlocking, and one
+-- that returns with the lock held
+example : wellLocked [(.subNext, [.lock .mu, .unlock .mu, .callDest .next])] = false := by decide
+example : wellLocked [(.subNext, [.lock .mu, .ifLoadEq .status 0 [.callDest .next] [.ret], .unlock .mu])] = false := by decide
+example : wellLocked Expected.table = true := by decide
+
 /-! ### non-vacuity and the witness for the unsafe mode -/
 
 -- a reachable state in which a thread IS inside a callback (safe mode, two producers)
@@ -99,6 +127,9 @@ end Ro.C02
 #print axioms Ro.KernelTie.mutexes_are_the_source
 #print axioms Ro.C02.kernel_callbacks_never_overlap
 #print axioms Ro.C02.kernel_callbacks_never_overlap_single_producer
+#print axioms Ro.C02.wellLocked_programs_never_overlap
+#print axioms Ro.C02.regenerated_programs_wellLocked
+#print axioms Ro.C02.regenerated_callbacks_never_overlap
 #print axioms Ro.C02.kernel_inside_holds_mu
 #print axioms Ro.C02.kernel_subscription_state_under_lock
 #print axioms Ro.C02.unsafe_two_producers_overlap_witness
